@@ -23,10 +23,10 @@ A(area, size, byte, bit) == [area |-> area, size |-> size, byte |-> byte, bit |-
 B(var, area, size, byte, bit, ty) == [var |-> var, area |-> area, size |-> size, byte |-> byte, bit |-> bit, ty |-> ty, owner |-> -1]
 T(name, interval, single, prio) == [name |-> name, interval |-> interval, single |-> single, prio |-> prio]
 P(name, task, copies) == [name |-> name, task |-> task, copies |-> copies]
-Ct(name, owner, scope, qual) == [name |-> name, owner |-> owner, fb |-> 0, scope |-> scope, qual |-> qual, shape |-> "INT"]
+Ct(name, owner, scope, qual) == [name |-> name, owner |-> owner, fb |-> 0, scope |-> scope, qual |-> qual, shape |-> "INT", initFrom |-> ""]
 \* FUNCTION_BLOCK instance `inst` of program instance `prog`, associated with `task`; its member counter
 Fb(prog, inst, task, copies) == [name |-> prog \o "." \o inst, prog |-> prog, inst |-> inst, task |-> task, copies |-> copies]
-Cf(name, fb) == [name |-> name, owner |-> 0, fb |-> fb, scope |-> "fb", qual |-> "none", shape |-> "INT"]
+Cf(name, fb) == [name |-> name, owner |-> 0, fb |-> fb, scope |-> "fb", qual |-> "none", shape |-> "INT", initFrom |-> ""]
 Cp(from, to) == [from |-> from, to |-> to, via |-> "stmt"]
 
 Drivers2 == << [off |-> 0, len |-> 1], [off |-> 1, len |-> 1] >>
